@@ -282,11 +282,18 @@ def decode_model(r):
     return out
 
 
+RUN_FIELDS = ("dim", "config", "height", "diameter", "yaml", "k_s0", "t_tot", "start", "stop", "rate", "holds",
+              "cnTemp", "Frand", "runs")
+
+
 def source_key(case):
-    """cache key: source fingerprint + case"""
+    """cache key: source fingerprint (all *.py + YAML of the package) + the fields of the case that
+    determine the run (labels such as `kind` are left out, so properties share runs)"""
     h = hashlib.sha256()
     h.update(core.repo_fingerprint().encode())
-    h.update(json.dumps(case, sort_keys=True, default=str).encode())
+    canon = {k: case.get(k) for k in RUN_FIELDS}
+    canon["config"] = canon["config"] or "shelf"
+    h.update(json.dumps(canon, sort_keys=True, default=str).encode())
     return h.hexdigest()
 
 
